@@ -134,6 +134,24 @@ func clone(seq []glyph.Info) []glyph.Info {
 	return out
 }
 
+// cloneShared copies a sequence the way a caller that decodes one string
+// does: all Text fields are adjacent sub-slices of a single rune array (so
+// each has spare capacity reaching into its neighbour's text).
+func cloneShared(seq []glyph.Info) []glyph.Info {
+	var all []rune
+	for _, g := range seq {
+		all = append(all, g.Text...)
+	}
+	out := make([]glyph.Info, len(seq))
+	pos := 0
+	for i, g := range seq {
+		out[i] = g
+		out[i].Text = all[pos : pos+len(g.Text)]
+		pos += len(g.Text)
+	}
+	return out
+}
+
 func runes(seq []glyph.Info) string {
 	var rr []rune
 	for _, g := range seq {
@@ -146,6 +164,9 @@ func runes(seq []glyph.Info) string {
 // apply runs ctx.Apply under the panic guard and the watchdog.
 func apply(ctx *gtab.Context, seq []glyph.Info, what string) (out []glyph.Info, pn *guard.Panic) {
 	in := clone(seq)
+	if len(seq)%2 == 1 {
+		in = cloneShared(seq)
+	}
 	guard.Watch("c07-apply", []byte(what), 60*time.Second, func() {
 		pn = guard.Try(func() { out = clone(ctx.Apply(in)) })
 	})
